@@ -229,6 +229,38 @@ def run(P, R):
             'update_process_list pops %s: another process than the one whose PID changed is evicted and its stop is '
             'never published' % [ast.unparse(c) for c in pops])
 
+    # the collector keeps a process in its list as long as the process exists: the entry popped for a collection is put
+    # back whatever the collection gave (a transient OSError gives ()), and only a vanished process (None) is dropped -
+    # otherwise its later stop is never published and its history is never dropped
+    cr = P.unit('ProcessStatisticsCollector.collect_recent_process')
+    fmc = factmap(cr)
+    ins = [c for c in own_nodes(cr.node) if isinstance(c, ast.Call) and call_text(c) == 'self.processes.insert']
+    ok = len(ins) == 1 and not any(t in ('proc_stats', 'instant_process_statistics(proc)') or t.startswith('proc_stats[')
+                                   or (t.startswith('instant_process_statistics(') and pol)
+                                   for t, pol in {(x[0], x[1]) for x in fmc.at(ins[0])} if pol
+                                   and not t.endswith(' is None')) and \
+        any(t.endswith(' is None') and not pol and 'proc' in t for t, pol in {(x[0], x[1]) for x in fmc.at(ins[0])})
+    R.check(r4, ok, 'an entry is put back in the collection list unless the process has vanished', 'drop|reinsert',
+            cr.loc(), 'collect_recent_process re-inserts the entry under %s: after a failed collection (OSError) the '
+            'process is forgotten and its stop is never published' % [sorted((x[0], x[1]) for x in fmc.at(c)) for c in ins])
+    # every psutil access to the MAIN process is covered by the handlers that turn a vanished process into None and an
+    # OSError into (): an exception escaping there kills the collector with the entry already popped
+    ip = P.unit('statscollector:instant_process_statistics')
+    fmi = factmap(ip)
+    pname = ip.node.args.args[0].arg
+    uncovered = []
+    n_acc = 0
+    for c in own_nodes(ip.node):
+        if isinstance(c, ast.Call) and isinstance(c.func, ast.Attribute) and isinstance(c.func.value, ast.Name) and \
+                c.func.value.id == pname:
+            n_acc += 1
+            hs = fmi.handlers.get(id(c), ()) or fmi.handlers.get(id(fmi.stmt_of.get(id(c), c)), ())
+            caught = {nm for level in hs for handler in level for nm in handler}
+            if not ({'psutil.NoSuchProcess', 'NoSuchProcess'} & caught and {'OSError'} & caught):
+                uncovered.append('%s.%s' % (pname, c.func.attr))
+    R.check(r4, n_acc >= 2 and not uncovered, 'psutil accesses to the main process are covered', 'drop|psutil-covered',
+            ip.loc(), 'instant_process_statistics calls %s outside the try that handles NoSuchProcess / OSError' % uncovered)
+
     # ---------------------------------------------------------------- R5
     r5 = R.rule('R5', 'wrap guard', 'an I/O rate is computed only when BOTH counters did not wrap (ref_in <= last_in and '
                 'ref_out <= last_out as two separate comparisons) and only for an entity present in the reference; the '
